@@ -50,7 +50,8 @@ class C05(HistoryCheck):
     PROP = "C05"
     LEVEL = "exploration"
     RUNS = {"quick": 1500, "thorough": 30000}
-    PROFILE = {"allow_frozen": False, "allow_class_dnc": False, "allow_init_false": False, "allow_attr_dnc": False}
+    PROFILE = {"allow_frozen": False, "allow_class_dnc": False, "allow_init_false": False, "allow_attr_dnc": False,
+               "allow_leaf_inv": True}
     OPGEN = {"p_bad": 0.0, "p_inplace": 0.35, "p_if_false": 0.08, "p_sentinel": 0.1, "exclude_fns": [],
              "weights": {"new": 2, "scalar": 10, "element": 3, "toplevel": 6, "set": 3, "del": 1.5, "get": 0.5,
                          "deepcopy": 0.3}}
